@@ -58,6 +58,7 @@ class Env(object):
         self.max_diff_width = max_diff_width
         self.no_missing = no_missing   # bound: value fields are assumed not to be all ones
         self.canonical_only = False
+        self.in_range = False
 
     def is_missing(self, v, n):
         """Is the n-bit field v all ones?  (Under no_missing the all-ones case is excluded from the run.)"""
@@ -82,13 +83,14 @@ def all_ones(n):
 
 class Item(object):
     """One decoded entry: label, value, and what kind of thing it is."""
-    __slots__ = ('label', 'value', 'kind', 'eid')
+    __slots__ = ('label', 'value', 'kind', 'eid', 'enc')
 
-    def __init__(self, label, value, kind, eid=None):
+    def __init__(self, label, value, kind, eid=None, enc=None):
         self.label = label
         self.value = value
         self.kind = kind      # 'element' | 'assoc' | 'skipped' | 'marker' | 'opval' | 'string205' | 'newref'
         self.eid = eid        # table B id for elements
+        self.enc = enc        # numeric fields: (effective width, effective reference, 10**scale as double)
 
     def __repr__(self):
         return '%s=%r' % (self.label, self.value)
@@ -158,13 +160,13 @@ class Reference(object):
         self.target_iter = None
 
     # ------------------------------------------------------------------ emission
-    def _emit(self, label, kind, eid, values):
+    def _emit(self, label, kind, eid, values, enc=None):
         """values: one value (uncompressed) or list per subset (compressed)."""
         if self.compressed:
             for out, v in zip(self.outs, values):
-                out.items.append(Item(label, v, kind, eid))
+                out.items.append(Item(label, v, kind, eid, enc))
         else:
-            self.outs[self.cur].items.append(Item(label, values, kind, eid))
+            self.outs[self.cur].items.append(Item(label, values, kind, eid, enc))
 
     def _n_items(self):
         return len(self.outs[0 if self.compressed else self.cur].items)
@@ -205,7 +207,7 @@ class Reference(object):
             d = self._u(w)
             col[4].append(d)
             if self.env.is_missing(d, w):
-                if self.env.canonical_only and n == 1:
+                if (self.env.canonical_only or self.env.in_range) and n == 1:
                     self.env.ctx.assume(False)   # a 1-bit field has no missing value to give to an encoder
                 out.append(None)
             else:
@@ -213,6 +215,9 @@ class Reference(object):
                 if self.env.canonical_only:
                     # values "drawn from the representable range of the field": raw <= 2^n - 2 (1-bit: <= 1)
                     self.env.ctx.assume(self.env.truth(raw <= all_ones(n) - (1 if n > 1 else 0)))
+                elif self.env.in_range:
+                    # foreign but valid data: minimum + difference still fits the element's own width
+                    self.env.ctx.assume(self.env.truth(raw <= all_ones(n)))
                 if codeflag_width is not None and codeflag_width > 1 and self.env.truth(raw == all_ones(codeflag_width)):
                     # a code/flag value that sums to the element's own all-ones pattern is missing
                     out.append(None)
@@ -410,7 +415,7 @@ class Reference(object):
             self._emit(label, kind, d, self._read_string(nbytes))
         elif unit in ('FLAG TABLE', 'CODE TABLE'):
             w = nbits + width_delta
-            self._emit(label, kind, d, self._read_uint_field(w, lambda r: r, codeflag_width=w))
+            self._emit(label, kind, d, self._read_uint_field(w, lambda r: r, codeflag_width=w), enc=(w, 0, 1.0))
         else:
             w = nbits + width_delta + self.w_off + self.inc[0]
             s = scale + self.s_off + self.inc[1]
@@ -427,7 +432,7 @@ class Reference(object):
                 if den != 1:
                     return sc.scaled(v, den)
                 return v
-            self._emit(label, kind, d, self._read_uint_field(w, conv))
+            self._emit(label, kind, d, self._read_uint_field(w, conv), enc=(w, r, den))
 
     # ------------------------------------------------------------------ operators
     def _operator(self, d):
@@ -564,10 +569,11 @@ class Reference(object):
 
 
 def reference_decode(ctx, ids, bits, n_subsets=1, compressed=False, pos=0, tables=None,
-                     max_factor=3, max_diff_width=64, no_missing=False, inline_sequences=False, canonical_only=False):
+                     max_factor=3, max_diff_width=64, no_missing=False, inline_sequences=False, canonical_only=False, in_range=False):
     B, D = tables or load_tables()
     env = Env(ctx, max_factor=max_factor, max_diff_width=max_diff_width, no_missing=no_missing)
     env.canonical_only = canonical_only
+    env.in_range = in_range
     ref = Reference(B, D, env, bits, pos=pos, n_subsets=n_subsets, compressed=compressed)
     ref.inline_sequences = inline_sequences
     ref.run(ids)
